@@ -3,6 +3,7 @@ package mon
 import (
 	"fmt"
 	"reflect"
+	"strings"
 	"time"
 
 	vocab "github.com/go-ap/activitypub"
@@ -185,7 +186,7 @@ func init() {
 	reflSingles := singleExact
 	Register(&Prop{
 		ID: "C09",
-		Rule: "laws as oracles: (R) ItemsEqual(x,x) for every exhaustive single-field value (all 14 kinds incl. links, pointer and value forms), top-level item lists and IRI lists, and seeded random nested values; (N) the full nil-like x nil-like and nil-like x non-nil matrix in both argument orders; " +
+		Rule: "laws as oracles: (R) ItemsEqual(x,x) for every exhaustive single-field value (all 14 kinds incl. links, pointer and value forms), top-level item lists and IRI lists, and seeded random nested values; (H) ids that differ only in host across 17 host pairs (IPv6 literals, IPv4, ports, subdomains, punycode) in IRI/object/actor forms; (L) lists of 7-17 members holding id-less objects and links that differ in one member; (N) the full nil-like x nil-like and nil-like x non-nil matrix in both argument orders; " +
 			"(I) for every object kind x {specific, generic type name} x {id host, id path, id query, type, each core property except mediaType/source in several shapes, and for transitive activities actor/object/target/result/origin/instrument}: a copy that differs in exactly that one thing must be unequal in both orders (evaluated only when the unmodified copy compares equal); distinct = law + case fingerprint; non-trivial = every case with a non-nil item",
 		Layers: func(tier string) []Layer {
 			return []Layer{
@@ -288,6 +289,93 @@ func init() {
 						}
 					}
 				}},
+				{Name: "id-hosts", N: len(hostPairs) * 3, Exhaustive: true, Run: func(c *Ctx, idx int) {
+					hp := hostPairs[idx/3]
+					suffix := []string{"/actors/jdoe", "/inbox?page=2", ""}[idx%3]
+					ia, ib := vocab.IRI("https://"+hp[0]+suffix), vocab.IRI("https://"+hp[1]+suffix)
+					forms := []struct {
+						n    string
+						a, b vocab.Item
+					}{
+						{"iri-iri", ia, ib},
+						{"obj-obj", &vocab.Object{ID: ia, Type: vocab.NoteType}, &vocab.Object{ID: ib, Type: vocab.NoteType}},
+						{"obj-iri", &vocab.Object{ID: ia, Type: vocab.NoteType}, ib},
+						{"actor-actor", &vocab.Actor{ID: ia, Type: vocab.PersonType}, vocab.Actor{ID: ib, Type: vocab.PersonType}},
+					}
+					for _, f := range forms {
+						desc := fmt.Sprintf("%s ids %q vs %q", f.n, string(ia), string(ib))
+						c.Distinct("hosts|"+desc, true)
+						c.Count("law:I", 1)
+						for _, ord := range [][2]vocab.Item{{f.a, f.b}, {f.b, f.a}} {
+							if eq, ok := itemsEqual(c, "I "+desc, ord[0], ord[1]); ok && eq {
+								c.Fail("eq|I|id-host|"+hostClass(hp[0])+"|"+f.n, "items whose ids differ in host compare equal: "+desc, map[string]any{"case": desc})
+							}
+						}
+					}
+				}},
+				{Name: "long-lists", N: 4 * 6 * 3, Exhaustive: true, Run: func(c *Ctx, idx int) {
+					// lists long enough for any index/fast path, with members that have no id
+					n := []int{7, 8, 9, 17}[idx%4]
+					field := []string{"Tag", "To", "Attachment", "Audience", "CC", "top"}[(idx/4)%6]
+					diffAt := []string{"noid-object", "noid-link", "with-id"}[idx/24]
+					mk := func(changed bool) vocab.ItemCollection {
+						l := vocab.ItemCollection{}
+						for i := 0; i < n; i++ {
+							switch i % 4 {
+							case 0:
+								l = append(l, vocab.IRI(fmt.Sprintf("https://example.com/long/%d", i)))
+							case 1:
+								txt := fmt.Sprintf("no id %d", i)
+								if changed && diffAt == "noid-object" && i == 5 {
+									txt += " (changed)"
+								}
+								l = append(l, &vocab.Object{Type: vocab.NoteType, Name: vocab.NaturalLanguageValues{{Ref: vocab.NilLangRef, Value: vocab.Content(txt)}}})
+							case 2:
+								id := vocab.IRI(fmt.Sprintf("https://example.com/long/%d", i))
+								if changed && diffAt == "with-id" && i == 6 {
+									id += "-changed"
+								}
+								l = append(l, &vocab.Object{ID: id, Type: vocab.NoteType})
+							default:
+								href := vocab.IRI(fmt.Sprintf("https://example.com/href/%d", i))
+								if changed && diffAt == "noid-link" && i == 3 {
+									href += "-changed"
+								}
+								l = append(l, &vocab.Link{Type: vocab.MentionType, Href: href})
+							}
+						}
+						return l
+					}
+					wrap := func(l vocab.ItemCollection) vocab.Item {
+						if field == "top" {
+							return l
+						}
+						o := &vocab.Object{ID: "https://example.com/long/holder", Type: vocab.NoteType}
+						if field == "Attachment" {
+							o.Attachment = l
+						} else {
+							reflect.ValueOf(o).Elem().FieldByName(field).Set(reflect.ValueOf(l))
+						}
+						return o
+					}
+					x, same, y := wrap(mk(false)), wrap(mk(false)), wrap(mk(true))
+					desc := fmt.Sprintf("%d-member list in %s, differing member: %s", n, field, diffAt)
+					c.Distinct("long|"+desc, true)
+					c.Count("law:R", 1)
+					c.Count("law:I", 1)
+					if eq, ok := itemsEqual(c, "R "+desc, x, x); ok && !eq {
+						c.Fail("eq|R|long-list", "ItemsEqual(x,x) is false for a "+desc, map[string]any{"case": desc})
+					}
+					eq0, ok := itemsEqual(c, "I baseline "+desc, x, same)
+					if !ok || !eq0 {
+						return
+					}
+					for _, ord := range [][2]vocab.Item{{x, y}, {y, x}} {
+						if eq, ok := itemsEqual(c, "I "+desc, ord[0], ord[1]); ok && eq {
+							c.Fail("eq|I|long-list|"+diffAt, "values that differ in one member of a long list compare equal: "+desc, map[string]any{"case": desc})
+						}
+					}
+				}},
 				{Name: "nlv-odd", N: len(oddNLVs) * len(oddNLVs) * 3, Exhaustive: true, Run: func(c *Ctx, idx int) {
 					prop := []string{"name", "summary", "content"}[idx%3]
 					i, j := (idx/3)/len(oddNLVs), (idx/3)%len(oddNLVs)
@@ -382,6 +470,23 @@ func oddClass(l []lv) string {
 		}
 	}
 	return fmt.Sprintf("%s/len%d", cls, len(l))
+}
+
+// pairs of different hosts, in every notation a URL admits
+var hostPairs = [][2]string{
+	{"[2001:db8::1]", "[2001:db8::2]"}, {"[2001:db8::1]:8443", "[2001:db8::2]:8443"}, {"[::1]", "[::ffff:10.0.0.7]"}, {"[2001:db8::1]", "[2001:db8:1::1]"}, {"[fe80::1]", "[fe80::1]:8080"},
+	{"10.0.0.1", "10.0.0.2"}, {"10.0.0.1:80", "10.0.0.1:81"}, {"127.0.0.1", "127.0.0.10"}, {"localhost", "localhost:8080"}, {"example.com", "example.com:8443"}, {"example.com:8443", "example.com:9443"},
+	{"example.com", "example.org"}, {"a.example.com", "b.example.com"}, {"example.com", "www.example.com"}, {"xn--bcher-kva.example", "xn--bcher-kvb.example"}, {"example.com", "example.co"}, {"ex-ample.com", "example.com"},
+}
+
+func hostClass(h string) string {
+	switch {
+	case strings.HasPrefix(h, "["):
+		return "ipv6"
+	case len(h) > 0 && h[0] >= '0' && h[0] <= '9':
+		return "ipv4"
+	}
+	return "name"
 }
 
 func nilClass(n string) string {
